@@ -1223,8 +1223,13 @@ impl Point {
             va += Scalar::ONE;
         }
 
-        // Normally the process above cannot fail.
-        assert!(b != -100);
+        // The process above fails only for the rare "pathological" scalars
+        // for which Scalar::split_vartime() could not return a pair of
+        // (truncated) 128-bit values; in that case, we use the generic
+        // (slower) combined double-scalar multiplication.
+        if b == -100 {
+            return self.mul_add_mulgen_vartime(&(-k), s).equals(*R) != 0;
+        }
 
         // Normalize the coefficients over 32+128 bits (two's complement
         // notation).
